@@ -983,3 +983,7 @@ mod tests {
         assert_eq!(config.algorithm.initial_wander, 1e-7);
     }
 }
+
+#[cfg(feature = "pendulum_project_ntpd_rs_verif")]
+#[path = "/verif/hooks/ntpd/daemon_config_mod.rs"]
+pub mod vh_daemon_config_mod;
